@@ -268,7 +268,8 @@ class Pkg:
                 for loc, plist in (("path", ep.path_parameters), ("query", ep.query_parameters), ("header", ep.header_parameters), ("cookie", ep.cookie_parameters)):
                     for p in plist:
                         names[(p.name, loc)] = str(p.python_name)
-                self.index.setdefault(ep.name, {"tag": str(tag), "module": str(utils.PythonIdentifier(ep.name, config.field_prefix)), "names": names})
+                self.index.setdefault(ep.name, {"tag": str(tag), "module": str(utils.PythonIdentifier(ep.name, config.field_prefix)), "names": names,
+                                                "bodies": [str(b.content_type) for b in ep.bodies], "has_diagnostics": bool(ep.errors)})
         self.root = genrun.import_package(parent, PKG)
         import importlib
 
@@ -371,10 +372,25 @@ class World:
                 build_err = f"cannot build argument {name!r} in {loc}: {type(e).__name__}: {e}"
                 continue
             pargs[(name, loc)] = J
+        for name, loc, J in call["args"]["params"]:
+            p = next((p for p in op["params"] if p["name"] == name and p["in"] == loc), None)
+            if p is not None and not inst.conforms(p["schema"], J, self.doc):
+                self.probe("call-inconsistent-with-document(skipped: shrink artefact)")
+                return None
         body = call["args"].get("body")
         exp_body = None
         if body is not None:
             bs = next((b for b in op["bodies"] if b["media_type"] == body[0]), None)
+            if bs is not None and not inst.conforms(bs["schema"], body[2], self.doc):
+                self.probe("call-inconsistent-with-document(skipped: shrink artefact)")
+                return None
+            if bs is not None and body[0] not in self.pkg.index[opid]["bodies"]:
+                if self.pkg.index[opid]["has_diagnostics"]:
+                    # the generator declined this request media type WITH a diagnostic for the operation (C07's subject)
+                    self.probe("body-media-type-declined-with-diagnostic(skipped: C07)")
+                    return None
+                self.v("C03", "declared-body-not-accepted", bs["kind"], f"{opid}: request media type {body[0]!r} is declared by the document, the operation was generated without any diagnostic, yet the function does not handle it (handled: {self.pkg.index[opid]['bodies']})")
+                return None
             if bs is not None:
                 try:
                     kwargs["body"] = inst.py_value(bs["schema"], body[2], self.doc, self.pkg.models, hints.get("body"), self.pkg.types.File, self.lit)
@@ -530,6 +546,10 @@ class World:
             if exc is None or type(exc).__name__ != injected_exc:
                 self.v("C04", "fault-not-surfaced", injected_exc, f"{prep['opid']}: transport fault {fault or 'timeout'} but call ended with {self._brief(res)}")
             obs["outcome"] = ("exc", injected_exc)
+            return obs
+        if b.get("documented") and b.get("source") == "json" and not inst.conforms(self._resp_schema(op, st), b.get("J"), self.doc):
+            self.probe("response-inconsistent-with-document(skipped: shrink artefact)")
+            obs["outcome"] = None
             return obs
         shape = f"{'doc' if b.get('documented') else 'undoc'}:{b.get('source')}:{inst.classify(self._resp_schema(op, st), self.doc) if b.get('documented') and self._resp_schema(op, st) else '-'}"
         self.states.add(f"resp|{shape}|{'enum' if st not in NON_ENUM_STATUSES else 'non-enum'}|raise={raise_flag}|{prep['variant']}|{'async' if prep.get('async') else 'sync'}")
